@@ -392,7 +392,7 @@ func bodyEnc(b []byte, whole bool) any {
 	if !ok {
 		return map[string]any{"fail": true}
 	}
-	return map[string]any{"json": v.Enc()}
+	return map[string]any{"json": Compact(v).Enc()}
 }
 
 func pingOK(status int, body []byte) bool {
